@@ -469,6 +469,8 @@ class CompoundInterval(Location):
 
         length = 0
         for start, end in zip(self._starts, self._ends):
+            if start < 0:
+                raise InvalidPositionException(f"Block positions must be non-negative. Start: {start}, end: {end}")
             if start > end:
                 raise InvalidPositionException("Block starts must be less than block ends")
             length += end - start
